@@ -678,7 +678,7 @@ def execute(sc, script=None):
         probes[k] = probes.get(k, 0) + n
 
     def viol(clause, detail, sig):
-        violations.append(Violation(clause, detail, sig).record(PROP))
+        violations.append(Violation(clause, detail.replace(W["base"], "<scratch>"), sig).record(PROP))
 
     for s in sc.get("stats", []):
         probe(s)
